@@ -192,12 +192,22 @@ func (t *htmlTemplate) processTagStart(node *Node, tokenBuf *strings.Builder,
 				}
 				data = exp.Combine(exp.NewScope(result), data)
 			case attrIf, attrElse_If, attrElseIf, attrElIf, attrElse: // 条件控制
+				owner := !t.currentAttrIs(node, currentIsCond)
 				if err := t.processIfElse(node, attr, tokenBuf, data, opt); err != nil {
 					return data, err
 				}
+				if owner {
+					// 本次调用负责计算条件: 满足时整个节点已经在重新执行时输出到 tokenBuf,
+					// 其余属性(range/insert/replace/动态属性等)不能在这里再处理一遍
+					return data, nil
+				}
 			case attrRange: // 循环
+				owner := !t.currentAttrIs(node, currentIsRange)
 				if err := t.processRange(node, attr, tokenBuf, data); err != nil {
 					return data, err
+				}
+				if owner {
+					return data, nil // 每个元素都已在重新执行时输出 同上
 				}
 			case attrRemove: // 移除
 				t.processRemoveAttr(node, attr, data, opt)
